@@ -53,8 +53,28 @@ Ltac fin :=
   simpl in *; try discriminate;
   rewrite ?smat_eqb_refl, ?Nat.eqb_refl; simpl; try reflexivity; auto.
 
+Lemma skind_eqb_eq a b : skind_eqb a b = true -> a = b.
+Proof.
+  destruct a, b; simpl; try discriminate; intros Hh; try reflexivity;
+    repeat match goal with
+           | H : _ && _ = true |- _ => apply andb_prop in H; destruct H
+           | H : Nat.eqb _ _ = true |- _ => apply Nat.eqb_eq in H; subst
+           | H : Bool.eqb _ _ = true |- _ => apply Bool.eqb_prop in H; subst
+           | H : role_eqb ?r ?r' = true |- _ => destruct r, r'; try discriminate; clear H
+           | H : onat_eqb ?x ?y = true |- _ => destruct x, y; simpl in H; try discriminate
+           end; reflexivity.
+Qed.
+
+(* every factor's result satisfies the per-element test of the Kronecker kernels *)
+Lemma all_b_of_Forall2 (a : aspect) (f : sval -> bool) ms vs :
+  (forall m v, svalid a m v -> f v = true) -> Forall2 (svalid a) ms vs -> all_b f vs = true.
+Proof.
+  intros Hf F. unfold all_b. induction F as [|m v ms vs Hv F IH]; simpl; [reflexivity|].
+  rewrite (Hf m v Hv), IH. reflexivity.
+Qed.
+
 Theorem sym_kern_ok :
-  kern_ok sym_kern svalid scompat (fun _ => False) (fun _ => True) (fun _ _ => True) (fun _ _ => True).
+  kern_ok sym_kern svalid scompat (fun _ => False) (fun _ => True) (fun _ _ => True) (fun _ _ => True) (fun _ _ => True).
 Proof.
   constructor.
   - (* dense *) intros A. fin.
@@ -117,13 +137,44 @@ Proof.
       unfold label_ok; simpl;
       repeat match goal with H : negb _ || _ = true |- _ => simpl in H end; auto.
     all: try (destruct (sv_tri_ok E); simpl in *; auto; discriminate).
+  - (* eig_kron *) intros A ms vecs es _ F. unfold svalid, sym_valid. simpl.
+    rewrite (all_b_of_Forall2 (AEig vecs) _ ms es);
+      [rewrite smat_eqb_refl; unfold is_kind; simpl; rewrite Bool.eqb_reflx; reflexivity
+      | intros m v Hv; brute v; fin | exact F].
+  - (* svd_kron *) intros A ms us _ F. unfold svalid, sym_valid. simpl.
+    rewrite (all_b_of_Forall2 ASvd _ ms us);
+      [rewrite smat_eqb_refl; reflexivity | intros m v Hv; brute v; fin | exact F].
+  - (* chol_kron *) intros A ms up cs _ F. unfold svalid, sym_valid. simpl.
+    rewrite (all_b_of_Forall2 (AChol up) _ ms cs);
+      [rewrite smat_eqb_refl; unfold is_factor; simpl; destruct up; reflexivity
+      | intros m v Hv; brute v; fin | exact F].
+  - (* root_kron *) intros A ms rs _ F. unfold svalid, sym_valid. simpl.
+    rewrite (all_b_of_Forall2 ARoot _ ms rs);
+      [rewrite smat_eqb_refl; reflexivity | intros m v Hv; brute v; fin | exact F].
+  - (* rootinv_kron *) intros A ms rs _ F. unfold svalid, sym_valid. simpl.
+    rewrite (all_b_of_Forall2 ARootInv _ ms rs);
+      [rewrite smat_eqb_refl; reflexivity | intros m v Hv; brute v; fin | exact F].
+  - (* iqld_kron *) intros A rhs ld iq e Hiq He. unfold svalid, sym_valid in *.
+    destruct rhs as [r|], iq as [x|]; try contradiction; destruct ld, e as [e'|]; try contradiction;
+      cbn [k_iqld_kron sym_kern plainv mkv sv_ok sv_of sv_kind]; unfold is_kind, is_eig, iqld_rhs in *;
+      cbn [sv_kind] in *;
+      repeat match goal with
+             | H : _ && _ = true |- _ => apply andb_prop in H; destruct H
+             | H : skind_eqb _ _ = true |- _ => apply skind_eqb_eq in H
+             end;
+      repeat match goal with
+             | H : sv_kind _ = _ |- _ => rewrite H
+             | H : sv_ok _ = true |- _ => rewrite H
+             | H : smat_eqb _ _ = true |- _ => rewrite H
+             end;
+      rewrite ?smat_eqb_refl; cbn [plainv mkv sv_kind andb skind_eqb onat_eqb Bool.eqb]; rewrite ?Nat.eqb_refl; reflexivity.
 Qed.
 
 (* ------------------------------------------------------------------ instances of the history predicates *)
-Notation sInv := (Inv sym_kern svalid (fun _ => False) (fun _ => True) (fun _ _ => True) (fun _ _ => True)).
-Notation sgood := (good_run sym_kern fl_pinned scompat (fun _ => False) (fun _ => True) (fun _ _ => True) (fun _ _ => True)).
+Notation sInv := (Inv sym_kern svalid (fun _ => False) (fun _ => True) (fun _ _ => True) (fun _ _ => True) (fun _ _ => True)).
+Notation sgood := (good_run sym_kern fl_pinned scompat (fun _ => False) (fun _ => True) (fun _ _ => True) (fun _ _ => True) (fun _ _ => True)).
 Notation sanswers := (answers_ok sym_kern fl_pinned svalid).
-Notation sevent_ok := (event_ok sym_kern fl_pinned scompat (fun _ => False) (fun _ => True) (fun _ _ => True) (fun _ _ => True)).
+Notation sevent_ok := (event_ok sym_kern fl_pinned scompat (fun _ => False) (fun _ => True) (fun _ _ => True) (fun _ _ => True) (fun _ _ => True)).
 
 Definition dense_obj (n k : nat) : obj sym_kern := Build_obj sym_kern pf_plain n true (SBase k) None None.
 Definition dense_new (n : nat) : newobj sym_kern := Build_newobj sym_kern pf_plain n true (SBase 99).
@@ -231,10 +282,14 @@ Definition hist_good : list (event sym_kern) :=
    EQuery 2 (QRootDecomp [] []); EQuery 2 (QCholesky [] [("upper", PBool true)])].
 
 (* ---- a decision procedure for the side conditions of the history theorem on the symbolic instance *)
-Notation swf := (obj_wf sym_kern (fun _ => False) (fun _ => True) (fun _ _ => True) (fun _ _ => True)).
+Notation swf := (obj_wf sym_kern (fun _ => False) (fun _ => True) (fun _ _ => True) (fun _ _ => True) (fun _ _ => True)).
 
 Definition obj_wfb (h : heap sym_kern) (o : obj sym_kern) : bool :=
-  (match pf_eig (o_pf sym_kern o) with EigShift c => c <? List.length (h_objs sym_kern h) | EigBase => true end) &&
+  (match pf_eig (o_pf sym_kern o) with
+   | EigShift c => c <? List.length (h_objs sym_kern h)
+   | EigBase => true
+   | EigKron l => forallb (fun c => c <? List.length (h_objs sym_kern h)) l
+   end) &&
   (match pf_cm_root (o_pf sym_kern o) with Some c => c <? List.length (h_objs sym_kern h) | None => true end) &&
   negb (pf_chol_ignore (o_pf sym_kern o)) &&
   (match pf_td_name (o_pf sym_kern o) with Some f => ends_with "to_dense" f | None => true end).
@@ -245,6 +300,15 @@ Proof.
   destruct (nth_error (h_objs sym_kern h) i) eqn:E; eauto. apply nth_error_None in E. lia.
 Qed.
 
+Lemma kids_exist (h : heap sym_kern) l : forallb (fun c => c <? List.length (h_objs sym_kern h)) l = true ->
+  exists ms, Forall2 (fun c m => exists oc, get sym_kern c h = Some oc /\ o_mat sym_kern oc = m) l ms.
+Proof.
+  induction l as [|c r IH]; simpl; intros Hb.
+  - exists []. constructor.
+  - apply andb_prop in Hb. destruct Hb as (Hc & Hr). destruct (IH Hr) as (ms & F).
+    destruct (get_some_lt _ _ Hc) as (oc & G). exists (o_mat sym_kern oc :: ms). constructor; eauto.
+Qed.
+
 Lemma obj_wfb_ok h o : obj_wfb h o = true -> swf h o.
 Proof.
   unfold obj_wfb. intros Hb. repeat (apply andb_prop in Hb; destruct Hb as [Hb ?]).
@@ -253,6 +317,7 @@ Proof.
   - intros c Ec. rewrite Ec in H1. destruct (get_some_lt _ _ H1) as (oc & G). eauto.
   - intros Hig. rewrite Hig in H0. discriminate.
   - intros f Ef. rewrite Ef in H. exact H.
+  - intros l El. rewrite El in Hb. destruct (kids_exist _ _ Hb) as (ms & F). exists ms. split; [exact F | exact Logic.I].
 Qed.
 
 Fixpoint allocs_wfb (h : heap sym_kern) (l : list (obj sym_kern)) : bool :=
@@ -264,7 +329,7 @@ Fixpoint allocs_wfb (h : heap sym_kern) (l : list (obj sym_kern)) : bool :=
   end.
 
 Lemma allocs_wfb_ok l : forall h, allocs_wfb h l = true ->
-  allocs_wf sym_kern (fun _ => False) (fun _ => True) (fun _ _ => True) (fun _ _ => True) h l.
+  allocs_wf sym_kern (fun _ => False) (fun _ => True) (fun _ _ => True) (fun _ _ => True) (fun _ _ => True) h l.
 Proof.
   induction l as [|x r IH]; intros h Hb; simpl in *; auto.
   repeat (apply andb_prop in Hb; destruct Hb as [Hb ?]).
@@ -366,6 +431,6 @@ Proof. repeat split; vm_compute; reflexivity. Qed.
 
 Example hist_good_answers : sInv (final hist_good) /\ sanswers (st_default, heap1) hist_good.
 Proof.
-  destruct (history_invariant_gen sym_kern fl_pinned svalid scompat _ _ _ _ sym_kern_ok hist_good (st_default, heap1) heap1_inv hist_good_ok)
+  destruct (history_invariant_gen sym_kern fl_pinned svalid scompat _ _ _ _ _ sym_kern_ok hist_good (st_default, heap1) heap1_inv hist_good_ok)
     as (I & _ & A). split; assumption.
 Qed.
